@@ -1084,7 +1084,7 @@ func (s *BgpServer) getBestFromLocalCallback(peer *peer, rfList []bgp.Family, ad
 		// This pass sends what it computes (initial table transfer, route refresh,
 		// soft reset out): it must honour ADD-PATH send-max like the incremental path.
 		s.getBestFromLocalCallbackLocked(peer, rfList, addEOR, func(paths []*table.Path, filtered []*table.Path) {
-			fn(holdBackBeyondSendMax(peer, paths), filtered)
+			fn(holdBackBeyondSendMax(peer, paths, filtered), filtered)
 		})
 		return
 	}
@@ -1097,9 +1097,18 @@ func (s *BgpServer) getBestFromLocalCallback(peer *peer, rfList []bgp.Family, ad
 // holdBackBeyondSendMax drops from a full re-advertisement the paths that would take an
 // ADD-PATH peer beyond send-max paths for a prefix, counting what the peer has been sent
 // already, and marks them as held back by send-max the way the incremental path does.
+// A path the export filters reject now but that the peer was sent is withdrawn by the same
+// pass (see withdrawalsOfFiltered): it frees its place for a path that is accepted now.
 // The caller holds the peer's route-refresh write lock.
-func holdBackBeyondSendMax(peer *peer, paths []*table.Path) []*table.Path {
+func holdBackBeyondSendMax(peer *peer, paths, filtered []*table.Path) []*table.Path {
 	added := map[table.PathDestLocalKey]uint{}
+	freed := map[table.PathDestLocalKey]uint{}
+	for _, p := range filtered {
+		if p == nil || p.IsEOR() || !peer.isAddPathSendEnabled(p.GetFamily()) || !peer.hasPathAlreadyBeenSent(p) {
+			continue
+		}
+		freed[p.GetDestLocalKey()]++
+	}
 	out := paths[:0:0]
 	for _, p := range paths {
 		if p == nil || p.IsEOR() || p.IsWithdraw || !peer.isAddPathSendEnabled(p.GetFamily()) || peer.hasPathAlreadyBeenSent(p) {
@@ -1107,7 +1116,7 @@ func holdBackBeyondSendMax(peer *peer, paths []*table.Path) []*table.Path {
 			continue
 		}
 		key := p.GetDestLocalKey()
-		if uint(peer.getRoutesCount(p.GetFamily(), p.GetPrefix()))+added[key] >= uint(peer.getAddPathSendMax(p.GetFamily())) {
+		if uint(peer.getRoutesCount(p.GetFamily(), p.GetPrefix()))+added[key] >= uint(peer.getAddPathSendMax(p.GetFamily()))+freed[key] {
 			peer.setPathSendMaxFiltered(p)
 			continue
 		}
